@@ -33,10 +33,10 @@ Skip == UNCHANGED <<op, corr, inflight, rlock, closed, reqs, stream, deliv, peer
 \* the broker wrote a response: the network delivers it at once, or only a prefix and then EOF
 Reply(e) ==
   LET o == e.id IN
-  /\ ~peerClosed /\ Len(stream) < Len(reqs) /\ reqs[Len(stream) + 1] = o
+  /\ ~peerClosed /\ o \in M!Received \ M!Answered      \* (any request received and not answered yet, not only the oldest)
   /\ stream' = Append(stream, IF "rid" \in DOMAIN e /\ e.rid # e.id
-                                 THEN [op |-> e.rid, kerr |-> FALSE, forged |-> TRUE]     \* a foreign correlation id
-                                 ELSE [op |-> o, kerr |-> e.kerr, forged |-> FALSE])
+                                 THEN [op |-> e.rid, kerr |-> FALSE, forged |-> TRUE, req |-> o]     \* a foreign correlation id
+                                 ELSE [op |-> o, kerr |-> e.kerr, forged |-> FALSE, req |-> o])
   /\ deliv' = Append(deliv, IF e.cut < 0 \/ e.cut >= e.len THEN "full"
                             ELSE IF e.cut >= 8 THEN "hdr" ELSE "none")
   /\ UNCHANGED <<op, corr, inflight, rlock, closed, reqs, rpos, mis, faults, peerClosed>>
@@ -64,10 +64,10 @@ Step(e) ==
     [] e.ev = "peerclosed" -> PeerClosed
     [] e.ev = "reply" -> Reply(e)
     [] e.ev = "replyhdr" ->     \* a response delivered in pieces: size and correlation id have arrived
-         /\ deliv' = [k \in DOMAIN deliv |-> IF stream[k].op = e.id /\ deliv[k] = "none" THEN "hdr" ELSE deliv[k]]
+         /\ deliv' = [k \in DOMAIN deliv |-> IF stream[k].req = e.id /\ deliv[k] = "none" THEN "hdr" ELSE deliv[k]]
          /\ UNCHANGED <<op, corr, inflight, rlock, closed, reqs, stream, rpos, mis, faults, peerClosed>>
     [] e.ev = "replyrest" ->    \* the rest of a stalled (or fragmented) response arrives
-         /\ deliv' = [k \in DOMAIN deliv |-> IF stream[k].op = e.id THEN "full" ELSE deliv[k]]
+         /\ deliv' = [k \in DOMAIN deliv |-> IF stream[k].req = e.id THEN "full" ELSE deliv[k]]
          /\ UNCHANGED <<op, corr, inflight, rlock, closed, reqs, stream, rpos, mis, faults, peerClosed>>
     [] e.ev = "take" -> M!PeekOK(e.id) /\ op'[e.id].pc = "own"
     [] e.ev = "yield" -> M!PeekOK(e.id) /\ UNCHANGED op
